@@ -26,6 +26,7 @@ import (
 	"fmt"
 	"io"
 	"log"
+	"math"
 	"os"
 	"path/filepath"
 	"runtime"
@@ -51,15 +52,16 @@ type Rec struct {
 }
 
 type Job struct {
-	ID     int    `json:"id"`
-	Kind   string `json:"kind"`
-	Recs   []Rec  `json:"recs"`   // wal: records (a "Rotate" type rotates); vlog/sst/db: value sizes
-	Verify bool   `json:"verify"` // run VerifyDir before opening (wal, vlog)
-	Stride int    `json:"stride"` // enumerate bits offset, offset+stride, ...
-	Offset int    `json:"offset"`
-	Max    int    `json:"max"` // cap on the number of flips (0 = none)
-	Seed   uint64 `json:"seed"`
-	File   string `json:"file"` // db: "sst" or "vlog"
+	ID       int    `json:"id"`
+	Kind     string `json:"kind"`
+	Recs     []Rec  `json:"recs"`   // wal: records (a "Rotate" type rotates); vlog/sst/db: value sizes
+	Verify   bool   `json:"verify"` // run VerifyDir before opening (wal, vlog)
+	Stride   int    `json:"stride"` // enumerate bits offset, offset+stride, ...
+	Offset   int    `json:"offset"`
+	Max      int    `json:"max"` // cap on the number of flips (0 = none)
+	Seed     uint64 `json:"seed"`
+	File     string `json:"file"`     // db: "sst" or "vlog"
+	Prefetch bool   `json:"prefetch"` // db: run the hot-key prefetch (LSM.Prefetch) for every key before the first Get
 }
 
 var walType = map[string]wal.RecordType{"entry": wal.RecordTypeEntry, "raft_entry": wal.RecordTypeRaftEntry,
@@ -81,6 +83,7 @@ func hash(p []byte) string {
 }
 
 type obs struct {
+	mode  string   // read path used (one FlipRange event per mode)
 	got   []string // records / entries served, in order
 	reads []string // per original pointer / key: value id, "NOTFOUND" or "ERR"
 	err   string
@@ -88,7 +91,22 @@ type obs struct {
 }
 
 func (o obs) key() string {
-	return strings.Join(o.got, ",") + "|" + strings.Join(o.reads, ",") + "|" + o.err + fmt.Sprint(o.pan)
+	return o.mode + "|" + strings.Join(o.got, ",") + "|" + strings.Join(o.reads, ",") + "|" + o.err + fmt.Sprint(o.pan)
+}
+
+func keys(os []obs) string {
+	parts := make([]string, len(os))
+	for i, o := range os {
+		parts[i] = o.key()
+	}
+	return strings.Join(parts, "#")
+}
+
+func emitRange(emit func(vt.Ev), file string, from, to, n int, cur []obs) {
+	for _, o := range cur {
+		emit(vt.Ev{"e": "FlipRange", "file": file, "mode": o.mode, "from": from, "to": to, "n": n, "got": nn(o.got), "reads": nn(o.reads),
+			"err": o.err, "panic": o.pan})
+	}
 }
 
 // trim returns memory to the OS after a decoder allocated a huge buffer for a corrupted length
@@ -122,43 +140,24 @@ type target struct {
 	hi   int // one past the last byte
 }
 
-func enumerate(j *Job, t target, emit func(vt.Ev), observe func() obs) {
-	var cur obs
-	from, prev, n, count := -1, -1, 0, 0
-	flush := func() {
-		if from < 0 {
-			return
-		}
-		emit(vt.Ev{"e": "FlipRange", "file": filepath.Base(t.path), "from": from, "to": prev, "n": n, "got": nn(cur.got), "reads": nn(cur.reads),
-			"err": cur.err, "panic": cur.pan})
+func enumerate(j *Job, t target, emit func(vt.Ev), observe func() []obs) {
+	enumerateWith(j, t, emit, func(flipped []byte) []obs {
+		replaceFile(t.path, flipped)
+		return observe()
+	})
+	replaceFile(t.path, t.orig)
+}
+
+// replaceFile installs new contents under a fresh inode (write + rename). A reader of the previous
+// flip that is still running in the background (iterator prefetch workers outlive Close) keeps its
+// mapping of the old inode instead of faulting on a file that is being rewritten under it.
+func replaceFile(path string, data []byte) {
+	tmp := path + ".flip"
+	if err := os.WriteFile(tmp, data, 0o644); err != nil {
+		vt.Fatal("write flipped file: %v", err)
 	}
-	stride := j.Stride
-	if stride <= 0 {
-		stride = 1
-	}
-	buf := append([]byte(nil), t.orig...)
-	for bit := t.lo*8 + j.Offset%stride; bit < t.hi*8; bit += stride {
-		if j.Max > 0 && count >= j.Max {
-			break
-		}
-		count++
-		buf[bit/8] ^= 1 << (bit % 8)
-		if err := os.WriteFile(t.path, buf, 0o644); err != nil {
-			vt.Fatal("write flipped file: %v", err)
-		}
-		o := observe()
-		buf[bit/8] ^= 1 << (bit % 8)
-		if from >= 0 && o.key() == cur.key() {
-			prev = bit
-			n++
-			continue
-		}
-		flush()
-		cur, from, prev, n = o, bit, bit, 1
-	}
-	flush()
-	if err := os.WriteFile(t.path, t.orig, 0o644); err != nil {
-		vt.Fatal("restore: %v", err)
+	if err := os.Rename(tmp, path); err != nil {
+		vt.Fatal("install flipped file: %v", err)
 	}
 }
 
@@ -212,13 +211,14 @@ func runWal(root string, j *Job, emit func(vt.Ev)) {
 			continue
 		}
 		t := target{path: f, orig: pristine[f], lo: 0, hi: len(pristine[f])}
-		enumerate(j, t, emit, func() obs {
+		enumerate(j, t, emit, func() []obs {
 			for g, b := range pristine {
 				if g != f {
-					_ = os.WriteFile(g, b, 0o644)
+					replaceFile(g, b)
 				}
 			}
-			return guarded(func(o *obs) {
+			return one(guarded(func(o *obs) {
+				o.mode = "replay"
 				if j.Verify {
 					if err := wal.VerifyDir(dir, nil); err != nil {
 						o.err = "verify: " + err.Error()
@@ -237,10 +237,12 @@ func runWal(root string, j *Job, emit func(vt.Ev)) {
 				if err != nil {
 					o.err += " replay: " + err.Error()
 				}
-			})
+			}))
 		})
 	}
 }
+
+func one(o obs) []obs { return []obs{o} }
 
 // ----------------------------------------------------------------------- vlog
 
@@ -287,8 +289,9 @@ func runVlog(root string, j *Job, emit func(vt.Ev)) {
 	}
 	emit(vt.Ev{"e": "Build", "kind": "vlog", "orig": nn(orig), "want": nn(want), "size": len(b), "end": end, "verify": j.Verify})
 	t := target{path: files[0], orig: b, lo: 0, hi: end}
-	enumerate(j, t, emit, func() obs {
-		return guarded(func(o *obs) {
+	enumerate(j, t, emit, func() []obs {
+		return one(guarded(func(o *obs) {
+			o.mode = "read+iterate"
 			if j.Verify {
 				if err := vlog.VerifyDir(cfg); err != nil {
 					o.err = "verify: " + err.Error()
@@ -319,7 +322,7 @@ func runVlog(root string, j *Job, emit func(vt.Ev)) {
 			if err != nil {
 				o.err += " iterate: " + err.Error()
 			}
-		})
+		}))
 	})
 }
 
@@ -327,7 +330,7 @@ func runVlog(root string, j *Job, emit func(vt.Ev)) {
 
 func sstOptions(dir string) *lsm.Options {
 	return &lsm.Options{WorkDir: dir, SSTableMaxSz: 64 << 20, MemTableSize: 1 << 20, BlockSize: 256,
-		BloomFalsePositive: 0.01, BlockCacheSize: 16, BloomCacheSize: 16}
+		BloomFalsePositive: 0.01, BlockCacheSize: 4096, BloomCacheSize: 16} // engine default block cache size
 }
 
 func runSST(root string, j *Job, emit func(vt.Ev)) {
@@ -361,38 +364,75 @@ func runSST(root string, j *Job, emit func(vt.Ev)) {
 	}
 	emit(vt.Ev{"e": "Build", "kind": "sst", "orig": nn(orig), "want": nn(want), "size": len(b), "blocks": blocks})
 	t := target{path: path, orig: b, lo: 0, hi: len(b)}
-	enumerate(j, t, emit, func() obs {
+	search := func(tb *lsm.VerifSST, o *obs) {
+		for _, k := range keys {
+			e, err := tb.Search(k)
+			switch {
+			case errors.Is(err, utils.ErrKeyNotFound):
+				o.reads = append(o.reads, "NOTFOUND")
+			case err != nil || e == nil:
+				o.reads = append(o.reads, "ERR")
+			default:
+				o.reads = append(o.reads, fmt.Sprintf("%d:%s", len(e.Value), hash(e.Value)))
+			}
+		}
+	}
+	scan := func(it utils.Iterator, o *obs, pause bool, wait func()) {
+		if it == nil {
+			return
+		}
+		defer it.Close()
+		it.Rewind()
+		if pause { // let the iterator's prefetch workers load the blocks ahead before they are read
+			time.Sleep(2 * time.Millisecond)
+			wait()
+		}
+		for ; it.Valid(); it.Next() {
+			item := it.Item()
+			if item == nil || item.Entry() == nil {
+				break
+			}
+			e := item.Entry()
+			o.got = append(o.got, fmt.Sprintf("%s:%s", hex.EncodeToString(e.Key), hash(e.Value)))
+		}
+	}
+	// three read paths, each on a freshly opened table (fresh caches):
+	//   read          Search of every key, then a plain scan
+	//   prefetch      the hot-key prefetch loader (table.prefetchBlockForKey) for every key first, then the same reads
+	//   iterprefetch  an ascending scan with PrefetchBlocks (the iterator's prefetch workers load blocks ahead)
+	mode := func(name string, f func(tb *lsm.VerifSST, o *obs)) obs {
 		return guarded(func(o *obs) {
+			o.mode = name
 			tb, err := lsm.VerifOpenTable(opt, 1)
 			if err != nil {
 				o.err = "open: " + err.Error()
 				return
 			}
 			defer tb.Close()
-			for _, k := range keys {
-				e, err := tb.Search(k)
-				switch {
-				case errors.Is(err, utils.ErrKeyNotFound):
-					o.reads = append(o.reads, "NOTFOUND")
-				case err != nil || e == nil:
-					o.reads = append(o.reads, "ERR")
-				default:
-					o.reads = append(o.reads, fmt.Sprintf("%d:%s", len(e.Value), hash(e.Value)))
-				}
-			}
-			it := tb.NewIterator(true)
-			if it != nil {
-				defer it.Close()
-				for it.Rewind(); it.Valid(); it.Next() {
-					item := it.Item()
-					if item == nil || item.Entry() == nil {
-						break
-					}
-					e := item.Entry()
-					o.got = append(o.got, fmt.Sprintf("%s:%s", hex.EncodeToString(e.Key), hash(e.Value)))
-				}
-			}
+			f(tb, o)
 		})
+	}
+	enumerate(j, t, emit, func() []obs {
+		return []obs{
+			mode("read", func(tb *lsm.VerifSST, o *obs) {
+				search(tb, o)
+				scan(tb.NewIterator(true), o, false, nil)
+			}),
+			mode("prefetch", func(tb *lsm.VerifSST, o *obs) {
+				for _, k := range keys {
+					tb.Prefetch(k)
+				}
+				tb.WaitCache() // the block cache admits entries asynchronously
+				search(tb, o)
+				scan(tb.NewIterator(true), o, false, nil)
+			}),
+			mode("iterprefetch", func(tb *lsm.VerifSST, o *obs) {
+				// the prefetch workers outlive Iterator.Close; VerifSST.Close unmaps the file regardless of
+				// references, so give them time to finish before the table is closed
+				defer time.Sleep(2 * time.Millisecond)
+				scan(tb.NewIteratorWith(&utils.Options{IsAsc: true, PrefetchBlocks: 4, PrefetchWorkers: 2}), o, true, tb.WaitCache)
+			}),
+		}
 	})
 }
 
@@ -500,7 +540,7 @@ func runDB(root string, j *Job, emit func(vt.Ev), nullw *vt.Writer) {
 
 func enumerateDB(j *Job, master, work string, t target, emit func(vt.Ev), keys [][]byte, cfg eng.Cfg) {
 	seq := 0
-	enumerateWith(j, t, emit, func(flipped []byte) obs {
+	enumerateWith(j, t, emit, func(flipped []byte) []obs {
 		seq++
 		dir := fmt.Sprintf("%s-%d", work, seq%4)
 		copyDir(master, dir)
@@ -509,13 +549,23 @@ func enumerateDB(j *Job, master, work string, t target, emit func(vt.Ev), keys [
 			vt.Fatal("%v", err)
 		}
 		o := guarded(func(o *obs) {
+			o.mode = "get"
 			r := &eng.Runner{Dir: dir, Cfg: cfg}
-			db := NoKV.Open(r.Opts())
+			dbo := r.Opts()
+			dbo.BlockCacheSize = 4096 // engine default (a 64-entry cache holds a single block)
+			db := NoKV.Open(dbo)
 			defer func() {
 				if err := db.Close(); err != nil && o.err == "" {
 					o.err = "close: " + err.Error()
 				}
 			}()
+			if j.Prefetch { // what DB.executePrefetch does for a hot key
+				o.mode = "prefetch+get"
+				for _, k := range keys {
+					db.VerifLSM().Prefetch(kv.InternalKey(kv.CFDefault, k, math.MaxUint64))
+				}
+				time.Sleep(5 * time.Millisecond) // the block cache admits entries asynchronously
+			}
 			for _, k := range keys {
 				e, err := db.Get(k)
 				switch {
@@ -529,20 +579,19 @@ func enumerateDB(j *Job, master, work string, t target, emit func(vt.Ev), keys [
 			}
 		})
 		_ = os.RemoveAll(dir)
-		return o
+		return one(o)
 	})
 }
 
-// enumerateWith is enumerate for observers that place the flipped bytes themselves.
-func enumerateWith(j *Job, t target, emit func(vt.Ev), observe func(flipped []byte) obs) {
-	var cur obs
+// enumerateWith flips the requested bits one at a time and merges consecutive bits (of the enumeration)
+// with identical observations into one range; the observer places the flipped bytes itself.
+func enumerateWith(j *Job, t target, emit func(vt.Ev), observe func(flipped []byte) []obs) {
+	var cur []obs
 	from, prev, n, count := -1, -1, 0, 0
 	flush := func() {
-		if from < 0 {
-			return
+		if from >= 0 {
+			emitRange(emit, filepath.Base(t.path), from, prev, n, cur)
 		}
-		emit(vt.Ev{"e": "FlipRange", "file": filepath.Base(t.path), "from": from, "to": prev, "n": n, "got": nn(cur.got), "reads": nn(cur.reads),
-			"err": cur.err, "panic": cur.pan})
 	}
 	stride := j.Stride
 	if stride <= 0 {
@@ -557,7 +606,7 @@ func enumerateWith(j *Job, t target, emit func(vt.Ev), observe func(flipped []by
 		buf[bit/8] ^= 1 << (bit % 8)
 		o := observe(buf)
 		buf[bit/8] ^= 1 << (bit % 8)
-		if from >= 0 && o.key() == cur.key() {
+		if from >= 0 && keys(o) == keys(cur) {
 			prev = bit
 			n++
 			continue
